@@ -258,6 +258,18 @@ def run(ctx):
     ops2 = lines + ["new r", "addnv r r " + hx(genesis_block_data)]
     impl2 = ["ok"] * len(ops2)
     from skepticoin.hash import scrypt as real_scrypt
+    # every later recorded block is first offered out of order (its parent is not stored yet: refused, nothing changes) — as
+    # when several peers deliver a chain at different speeds — and then again in its turn
+    for fn, raw, b in blocks[1:]:
+        try:
+            real.add_block(b, b.timestamp)
+            v = "ok"
+            res.violations.append({"kind": "recorded block accepted before its parent is stored", "file": fn})
+        except Exception:
+            v = "rej"
+        ops2.append("add r r %s %d" % (hx(raw), b.timestamp))
+        impl2.append(v)
+        res.count("recorded_block_offered_before_its_parent")
     for fn, raw, b in blocks:
         try:
             real = real.add_block(b, b.timestamp)
